@@ -25,6 +25,9 @@ package main
 //           itself when `cut` lies inside a frame) | over (sends stream[0:cut] and then the header of a 500000-byte frame)
 //   cpause  <event>+<ms>: the consumer of msgsFromPanel stops receiving that long after the event, for `cdur` ms (default 600)
 //   stream  bytes the panel sends after the probe (hex); exp = expected delivery token per complete frame
+//   reply   (mode asc) what the panel answers to the probe: absent = silence for the 2 s window | rdy | map | err
+//           (an `ErrorMsg=…` line: a panel in server mode that is locked / full) | txt (any other text); the client
+//           treats all of them as ASCII, and onconnect gets the error text of `err`
 //
 // Trace events (ms since the call of ConnectToPanel):
 //   start | cancel | cancel2 | cancelfb (fallback: trigger event never happened) | listen | gorc:n (library goroutines of this script just before cancel)
@@ -220,6 +223,18 @@ func nlRunLife(a map[string]string) string {
 			}
 			c.Write([]byte{2, 0, 0, 0, 8, 2}) // binary ACK frame
 		case "asc":
+			if rp := nlReplyBytes(a["reply"]); rp != nil { // the panel answers the probe with text instead of staying silent
+				select {
+				case <-gotPing:
+				case <-rdone:
+					c.Close()
+					return
+				case <-stop:
+					c.Close()
+					return
+				}
+				c.Write(rp)
+			}
 			select {
 			case <-gotLF:
 			case <-rdone:
@@ -566,6 +581,21 @@ func nlRunLife(a map[string]string) string {
 	return tr.String()
 }
 
+// reply of an ASCII panel to the probe (script parameter `reply`)
+func nlReplyBytes(kind string) []byte {
+	switch kind {
+	case "rdy":
+		return []byte("RDY\n")
+	case "map":
+		return []byte("map=1:2\n")
+	case "err":
+		return []byte("ErrorMsg=Panel is locked to another client\n")
+	case "txt":
+		return []byte("list\nBSY\n")
+	}
+	return nil
+}
+
 // ---------------- generator ----------------
 
 func nlBinFrame(m *rwp.OutboundMessage) []byte {
@@ -604,6 +634,43 @@ func nlAscStream() nlStream {
 		s.bytes = append(s.bytes, []byte(l+"\n")...)
 		s.bounds = append(s.bounds, len(s.bytes))
 		s.exp = append(s.exp, nlMsgTok(helpers.RawPanelASCIIstringsToOutboundMessages([]string{l})))
+	}
+	return s
+}
+
+// an ASCII stream with one line of ln bytes (without its LF) between short ones: longer than a buffered reader's buffer
+func nlAscLongStream(ln int) nlStream {
+	lines := []string{"HWC#1=Down", ndLongLine(ln), "HWC#2=Enc:1", "", "HWC#4=Up"}
+	s := nlStream{mode: "asc"}
+	for _, l := range lines {
+		s.bytes = append(s.bytes, []byte(l+"\n")...)
+		s.bounds = append(s.bounds, len(s.bytes))
+		s.exp = append(s.exp, nlMsgTok(helpers.RawPanelASCIIstringsToOutboundMessages([]string{l})))
+	}
+	return s
+}
+
+// a binary stream with a frame of n payload bytes between small ones (and an empty frame)
+func nlBinLongStream(n int) nlStream {
+	msgs := []*rwp.OutboundMessage{
+		{Events: []*rwp.HWCEvent{{HWCID: 1, Binary: &rwp.BinaryEvent{Pressed: true}}}},
+		nil,
+		{},
+		{Events: []*rwp.HWCEvent{{HWCID: 3, Absolute: &rwp.AbsoluteEvent{Value: 500}}}},
+	}
+	s := nlStream{mode: "bin"}
+	for _, m := range msgs {
+		var b []byte
+		if m == nil {
+			b = ndMsgOfSize(n)
+			m = &rwp.OutboundMessage{}
+			proto.Unmarshal(b, m)
+		} else {
+			b, _ = proto.MarshalOptions{Deterministic: true}.Marshal(m)
+		}
+		s.bytes = append(s.bytes, ndFrame(b)...)
+		s.bounds = append(s.bounds, len(s.bytes))
+		s.exp = append(s.exp, nlMsgTok([]*rwp.OutboundMessage{m}))
 	}
 	return s
 }
@@ -783,6 +850,45 @@ func genC11(r *Rng, n int, tier string) {
 	add("asc", &as, "cyc=2", "cut="+i2(as.bounds[0]), "feed=con1+0", "fn=40", "fi=15", "fb=20000", "cancel=held+300")
 	add("bin", &bs, "cyc=1", "cut="+i2(bs.bounds[0]+2), "loss=stall", "feed=con1+0", "fn=40", "fi=60", "fb=20000", "cancel=held+300")
 	add("bin", &bs, "feed=con1+0", "fn=40", "fi=10", "fb=50000", "cancel=held+300")
+	// (3e) every way an ASCII panel answers the probe (silence is the default above): RDY, a map line, other text, and an
+	//      ErrorMsg line (onconnect gets an error text): the lifecycle is the same whatever the callback was told -
+	//      loss at a line boundary / inside a line / before anything was sent, 1-3 loss/reconnect cycles, cancellation
+	//      while connected, right after onconnect, in the EOF sleep and in the retry sleep
+	for ri, reply := range []string{"err", "rdy", "map", "txt"} {
+		rp := "reply=" + reply
+		add("asc", &as, rp, "cancel=held+300")
+		add("asc", &as, rp, "cyc=1", "cut="+i2(as.bounds[1]), "cancel=held+300")
+		add("asc", &as, rp, "cyc=2", "cut="+i2(as.bounds[ri%len(as.bounds)]+ri%3), "cancel=held+300")
+		if reply == "err" || thorough {
+			add("asc", &as, rp, "cyc=3", "cut=0", "cancel=held+300")
+			add("asc", &as, rp, "rc=2", "cyc=1", "cut="+i2(len(as.bytes)), "cancel=dis1+700")
+			add("asc", &as, rp, "cyc=1", "cut="+i2(as.bounds[0]+2), "cancel=pcl1+400")
+			add("asc", &as, rp, "cancel=con1+0")
+			add("asc", &as, rp, "hold=0", "cancel=held+400", "twice=1")
+			add("asc", &as, rp, "cyc=1", "cut="+i2(as.bounds[0]), "feed=dis1+200", "fn=3", "fi=120", "cancel=held+300")
+			add("asc", &as, rp, "cyc=1", "cut="+i2(as.bounds[1]+2), "cpause=con1+0", "cdur=600", "cancel=held+300")
+		}
+	}
+	// (3f) lines and frames around the sizes at which buffered readers change behaviour (4096 = bufio's buffer; in
+	//      thorough also 64 KiB), completely received before the drop / the cancellation: delivered, the connection kept
+	//      until the panel drops it; drop inside the long line: not delivered; both ASCII handshakes
+	lls := []int{4094, 4095, 4096, 4097, 9000}
+	for li, ln := range lls {
+		ls := nlAscLongStream(ln)
+		rp := "reply=" + []string{"rdy", "err", "map"}[li%3]
+		add("asc", &ls, rp, "cancel=held+400")
+		add("asc", &ls, rp, "cyc=1", "cut="+i2(len(ls.bytes)), "cancel=held+400")
+		if li%2 == 0 {
+			add("asc", &ls, "cyc=1", "cut="+i2(ls.bounds[1]), "seg=1500", "cancel=held+400")
+			add("asc", &ls, rp, "cyc=1", "cut="+i2(ls.bounds[1]-1), "cancel=held+400")
+		}
+	}
+	for _, n := range []int{4092, 4096, 9000} {
+		bl := nlBinLongStream(n)
+		add("bin", &bl, "cancel=held+400")
+		add("bin", &bl, "cyc=1", "cut="+i2(bl.bounds[1]), "seg=1500", "cancel=held+400")
+		add("bin", &bl, "cyc=1", "cut="+i2(bl.bounds[1]-1), "cancel=held+400")
+	}
 	// (4) panel closing right after accept; cancellation while it keeps doing so
 	add("refuse", nil, "cancel=dis1+300")
 	add("refuse", nil, "cancel=dis2+300")
@@ -814,6 +920,9 @@ func genC11(r *Rng, n int, tier string) {
 			}
 		}
 		kv := []string{"rc=" + i2(r.Pick(0, 1, 2)), "cyc=" + i2(cyc), "cut=" + i2(cut), "seg=" + i2(r.Pick(0, 0, 1, 3, 7))}
+		if mode == "asc" && r.Chance(60) {
+			kv = append(kv, "reply="+[]string{"err", "rdy", "map", "txt"}[r.Intn(4)])
+		}
 		if loss != "" {
 			kv = append(kv, "loss="+loss)
 		}
